@@ -106,6 +106,13 @@ corrected with `gcf_k` turned out to violate C04 and C11 once the generator cove
   the contact point, `fit` and the model at the reported parameters differ by rounding relative to the *terms*;
   the tolerance is now `1e-12·|m| + 64·eps·(|m| + 2|baseline| + 1e-3·max|m|)`.  The harness's own
   reconstruction of the corrected contact point was clipped by the caller's limits – limits are lifted first.
+* C01 (thorough, seed 21): with a contact-point weighting width above the indentation depth MINPACK is trapped
+  in side minima from a factor-2 modulus guess on (measured 0/450 failures inside a factor 1.5, 29/600 outside) –
+  the *stated basin* was wrong, not the code; it now says factor 1.5 for that case.
+* C03/C10 (after limits became part of the histories): a fit that ends at a parameter limit is flat in that
+  direction and not reproducible bit by bit (2850.04 vs 2850.0 between two identical fits in one process) – the
+  fresh-object oracle compares to 1e-3 there, exactly otherwise; “a fit ran” now means the outermost
+  `IndentationFitter.fit()` returned (an interval with too few points never reaches the optimiser).
 * C01 `least_squares`/`powell` stop early on SI-scaled data (explored, not asserted); the layered
   model is ill-conditioned outside a stated regime.
 * C03 model: the kwargs loop stops at the first error; parameter sets are compared per parameter
@@ -126,35 +133,54 @@ corrected with `gcf_k` turned out to violate C04 and C11 once the generator cove
 
 ### 9.5 Seeded changes (independent sub-agents, property text + scratch worktree only)
 
-Fifty changes are kept under `seeded/<id>/` (`patch.diff`, `demo.py`, `meta.json`; each confirmed by
+Sixty-seven changes are kept under `seeded/<id>/` (`patch.diff`, `demo.py`, `meta.json`; each confirmed by
 me in a scratch worktree: demo passes on HEAD, fails with the change, 176 tests pass with it): forty
-from the first round, ten from a second round of eight agents on C04, C05, C07, C08, C11, C13, C17, C20
-(six further submissions duplicated first-round changes and were not kept).  C04c, C11a, C11b and C11c were
-re-expressed on the tree in which the contact-point limits are corrected with `gcf_k`, and re-confirmed.
+from the first round (two per property), ten from a second round of eight agents (C04, C05, C07, C08, C11,
+C13, C17, C20) and seventeen from a third round of twelve agents (C01, C02, C03, C06, C09, C10, C12, C14,
+C15, C16, C18, C19); thirteen further submissions duplicated earlier changes and were not kept.  C04c, C11a,
+C11b and C11c were re-expressed on the tree in which the contact-point limits are corrected with `gcf_k`,
+and re-confirmed.
 `tools/run_seeds.py` applies each to `/repo`, runs the quick check of its property, undoes it and
-writes `seeded/RESULTS.json`.  All fifty are reported by `./check <property> --tier quick` with a
+writes `seeded/RESULTS.json`.  All sixty-seven are reported by `./check <property> --tier quick` with a
 concrete failing input (none only as `no-failing-input-found`).
 
 | seed | change | caught by |
 |------|--------|-----------|
 ''' + "\n".join(f"| {n} | {short.replace('|','/')} | `./check {prop}` – oracle on the real code with replay" for n,prop,short in rows) + r'''
 
-Checks that had to be strengthened because a seed was first reported only as
-`no-failing-input-found` or missed: C12 (parameter-history variants, close values), C14
-(`check_order` oracle), C19 (fit-params oracle), C16 (retract / failed-fit variants), C09 (rating
-value against a standalone rater, `reg_kwargs` isolation, large curve), C15 (kept-rows oracle),
-C03/C10 (follow-up operations after in-place edits, attribute edits, directed enumeration of a
-reduced alphabet), C08 (exceptions on recorded curves as violations; `ret_details=True` calls – C08d), C04 (contact points
-far from zero with finite limits and k ≠ 1 – C04c, which also exposed the genuine defect 15a51c8), C07
-(staircase height set-points with equal neighbours – C07c; instrument segment flag before / after the deepest
-point – C07d), C20 (unsuccessful refit that keeps stale parameters – C20c).
+Checks that had to be strengthened because a seed was first missed or reported only as
+`no-failing-input-found` (each strengthening is generic – a class of inputs or histories, not the seed):
+
+* first round: C12 (parameter-history variants, close values), C14 (`check_order` oracle), C19 (fit-params
+  oracle), C16 (retract / failed-fit variants), C09 (rating value against a standalone rater, `reg_kwargs`
+  isolation, large curve), C15 (kept-rows oracle), C03/C10 (follow-up operations after in-place edits,
+  attribute edits, directed enumeration of a reduced alphabet);
+* second round: C08 (exceptions on recorded curves as violations; `ret_details=True` calls – C08d), C04
+  (contact points far from zero with finite limits and k ≠ 1 – C04c, which also exposed the genuine defect
+  15a51c8), C07 (staircase height set-points with equal neighbours – C07c; instrument segment flag before /
+  after the deepest point – C07d), C20 (unsuccessful refit that keeps stale parameters – C20c);
+* third round (8 of 17 were first missed, 4 had no failing input): C01 (position jitter larger than the
+  sample spacing – non-monotonic abscissa, C01c), C02 (evaluation through `NaniteFitModel.model`, approach +
+  retract cycles in one array, every array kind for every model in turn, boundary-coincident parameter values
+  such as `E_S = E_L` – C02a/c/d), C03/C10 (plateau-search settings and inverted intervals in the history
+  alphabet, in-place edits of parameter *limits*, targeted scenarios – C03c, C10c; this required modelling the
+  fitter-side `range_x` rule `fitterFp` and the unconditional FitDataError of the plateau search on retract
+  segments in `Model/Indent.lean`), C09 (order of the feature names with training sets read from disk –
+  C09c), C12 (several optioned steps across `PYTHONHASHSEED` values and insertion orders – C12c), C15
+  (manager inspected, container changed, then exported – C15c), C16 (metadata-only readers and the manager
+  after every injected fault – C16d), C18 (late key / default mismatches behind a signature-order warning; the
+  rule “keys of `get_parameter_defaults` = `parameter_keys`” as an oracle – C18c; ancillary keys of every model
+  across register / query / deregister – C18d), C19 (repeated setup runs on an existing profile, answer 0 –
+  C19d).
 
 ### 9.6 Observations that are not findings
 
 `optimal_fit_num_samples ≤ 6` makes scipy's `filtfilt` raise; `preproc.apply(options=None)` raises
 AttributeError (the public entry point passes a dict); `least_squares`/`powell` stop early on SI-scaled data; parameter sets with extra user
 parameters are outside the object model; afmformats' HDF5 reader iterates curve groups in
-lexicographic key order (third party); a map pixel without a curve is NaN without a warning.
+lexicographic key order (third party); the plateau search (`optimal_fit_edelta`) raises FitDataError for every
+retract segment (`compute_emodulus_vs_mindelta` ends in an unconditional raise there) and, with an upper bound
+equal to the default's, replaces the user's `range_x` by the default list (modelled as `fitterFp`); a map pixel without a curve is NaN without a warning.
 
 ### 9.7 Deviations from the design
 
